@@ -83,6 +83,9 @@ type VM struct {
 	mapIDs    int
 	syncMaps  map[*Value]*Map
 	onceDone  map[*Value]bool
+	permUsed  int
+	// PermuteBudget bounds how many ranged maps per path may take a non-insertion order (0 = no bound)
+	PermuteBudget int
 	mapOrder  bool // symbolic map iteration order
 	FnSeen    map[string]bool
 	pathNotes map[string]string
@@ -1137,7 +1140,11 @@ func (vm *VM) rangeOp(fr *frame, in *ssa.Range) Value {
 		}
 		snap := m.entries
 		if vm.mapOrder && len(snap) > 1 {
-			snap = vm.permute(snap)
+			// a bounded number of ranged maps per path take a non-insertion order
+			// (PermuteBudget; the others iterate in insertion order, itself a legal order)
+			if vm.PermuteBudget <= 0 || vm.permUsed < vm.PermuteBudget {
+				snap = vm.permute(snap)
+			}
 		}
 		return &mapIter{m: m, snap: snap}
 	case string:
@@ -1156,6 +1163,7 @@ func (vm *VM) permute(in []mapEntry) []mapEntry {
 		if vm.Decide(vm.SymBool(fmt.Sprintf("maporder_%d", len(vm.trace)))) {
 			return out
 		}
+		vm.permUsed++
 		if vm.Decide(vm.SymBool(fmt.Sprintf("maporder_%d", len(vm.trace)))) {
 			for i, j := 0, len(out)-1; i < j; i, j = i+1, j-1 {
 				out[i], out[j] = out[j], out[i]
@@ -1167,6 +1175,7 @@ func (vm *VM) permute(in []mapEntry) []mapEntry {
 	rest := make([]mapEntry, len(in))
 	copy(rest, in)
 	var out []mapEntry
+	changed := false
 	for len(rest) > 1 {
 		pick := 0
 		for pick < len(rest)-1 {
@@ -1175,6 +1184,10 @@ func (vm *VM) permute(in []mapEntry) []mapEntry {
 				break
 			}
 			pick++
+		}
+		if pick != 0 && !changed {
+			changed = true
+			vm.permUsed++
 		}
 		out = append(out, rest[pick])
 		rest = append(append([]mapEntry{}, rest[:pick]...), rest[pick+1:]...)
